@@ -46,6 +46,9 @@ var effectOps = map[string]string{
 	"(*" + modPath + "lib/server/ipdb.IPDB).DisableDynamic":           "DisableDynamic",
 	"(*" + modPath + "lib/server/ipdb.IPDB).AddPermanentClient":       "AddPermanentClient",
 	modPath + "lib/libif.InterfaceAddr":                                "InterfaceAddr",
+	// resolvconf: the process environment and the file update
+	"os.Environ":                      "Environ",
+	modPath + "lib/resolvconf.update": "Update",
 	// sockets and the ARP prober (lib/rsocks, lib/arpping seen from lib/server)
 	modPath + "lib/rsocks.GetIPRecvSock":  "OpenIPRecvSock",
 	modPath + "lib/rsocks.GetARPRecvSock": "OpenARPRecvSock",
@@ -64,6 +67,9 @@ func envOfPkg(path string) string {
 	}
 	if strings.HasSuffix(path, "lib/client/dclient") {
 		return "CliEnv"
+	}
+	if strings.HasSuffix(path, "lib/resolvconf") {
+		return "ResEnv"
 	}
 	return "Env"
 }
@@ -139,8 +145,9 @@ func (x *X) envDef() string {
 	doc["ArpEnv"] = "The world outside the translated ARP prober (lib/arpping): the receive socket and the sender goroutine."
 	doc["CliEnv"] = "The world outside the translated client automaton (lib/client/dclient): sockets, the exchange primitive, libif, the prober, callbacks, clock, rate limiter."
 	doc["NewEnv"] = "The world outside the translated constructor server.New: the interface's address and the lease database being configured."
+	doc["ResEnv"] = "The world outside the translated resolvconf.Run: the process environment and the atomic file update (C20)."
 	doc["RunEnv"] = "The world outside the translated receive loop and prober wrapper of lib/server: the receive socket, the handler goroutines it starts, the ARP prober."
-	for _, env := range []string{"Env", "DbEnv", "ArpEnv", "RunEnv", "CliEnv", "NewEnv"} {
+	for _, env := range []string{"Env", "DbEnv", "ArpEnv", "RunEnv", "CliEnv", "NewEnv", "ResEnv"} {
 		n := 0
 		for _, o := range ops {
 			if o.env == env {
